@@ -93,6 +93,7 @@ class Expander:
         self.sources = {}
         self.report = []  # per extracted fn/item
         self.trust = []   # external_body etc.
+        self.callee_contracts = []  # fns included by contract only (proved in their own unit)
 
     def src(self, rel):
         if rel not in self.sources:
@@ -102,7 +103,7 @@ class Expander:
             self.sources[rel] = Source(p)
         return self.sources[rel]
 
-    def expand_file(self, path):
+    def expand_file(self, path, force_external=False):
         lines = open(path, encoding="utf-8").read().split("\n")
         out = []
         i = 0
@@ -118,12 +119,15 @@ class Expander:
                     i += 1
                 if i >= len(lines):
                     raise ExtractError("%s: //@fn without //@end" % path)
-                out.append(self.expand_fn(block))
+                out.append(self.expand_fn(block, force_external))
             elif s.startswith("//@item "):
                 out.append(self.expand_item(s))
             elif s.startswith("//@include "):
-                inc = os.path.join(self.verus_dir, s.split(None, 1)[1].strip())
-                out.append(self.expand_file(inc))
+                parts = s.split()
+                inc = os.path.join(self.verus_dir, parts[1])
+                # `contracts_only`: every fn of the included file keeps its contract but loses its body
+                # (it is proved in its own unit; here it is a callee known by contract only)
+                out.append(self.expand_file(inc, force_external or ("contracts_only" in parts[2:])))
             else:
                 out.append(ln)
             i += 1
@@ -148,7 +152,7 @@ class Expander:
         })
         return text
 
-    def expand_fn(self, block):
+    def expand_fn(self, block, force_external=False):
         head = block[0][len("//@fn "):]
         # continuation lines "//@ ..." (not "//@|", not a sub-directive) extend the head
         k = 1
@@ -207,6 +211,10 @@ class Expander:
             sig = _name_ret(sig, kv["ret"])
         body = S.text[bo:end]
         n_loops = len(S.loops(bo, end))
+        if force_external and "external_body" not in flags:
+            text = "#[verifier::external_body]\n" + sig + "\n" + "\n".join("    " + x for x in sig_spec) + "\n{ unimplemented!() }\n"
+            self.callee_contracts.append("%s::%s" % (rel, name))
+            return text
         if "external_body" in flags:
             self.trust.append("external_body: %s::%s (contract assumed by this unit)" % (rel, name))
             text = "#[verifier::external_body]\n" + sig + "\n" + "\n".join("    " + x for x in sig_spec) + "\n{ unimplemented!() }\n"
